@@ -415,6 +415,40 @@ fn spec_template_vars(t: &str) -> Vec<(bool, String)> {
   vars
 }
 
+/// the same documented scanner, as a substitution: variable occurrences named A become `a_text`, every other
+/// variable occurrence (unbound) becomes nothing, and everything else — lone sigils, lower-case names — stays
+fn spec_template_subst(t: &str, a_text: &str) -> String {
+  let c: Vec<char> = t.chars().collect();
+  let mut i = 0;
+  let mut outp = String::new();
+  while i < c.len() {
+    if c[i] != '$' {
+      outp.push(c[i]);
+      i += 1;
+      continue;
+    }
+    let mut k = 1;
+    while k < 3 && i + k < c.len() && c[i + k] == '$' {
+      k += 1;
+    }
+    let mut j = i + k;
+    while j < c.len() && (c[j].is_ascii_uppercase() || c[j] == '_' || c[j].is_ascii_digit()) {
+      j += 1;
+    }
+    if j == i + k {
+      outp.push('$');
+      i += 1;
+      continue;
+    }
+    let name: String = c[i + k..j].iter().collect();
+    if name == "A" {
+      outp.push_str(a_text);
+    }
+    i = j;
+  }
+  outp
+}
+
 fn stream_template(o: &Opts, out: &mut Out) {
   let alpha = ['$', 'A', 'a', '_', '1', ' '];
   let max = if o.thorough { 7 } else { 5 };
@@ -438,6 +472,37 @@ fn stream_template(o: &Opts, out: &mut Out) {
       out.nontrivial(&("tpl", s.clone()));
     }
     out.count(if got.is_empty() { "template:no-var" } else { "template:has-var" });
+    // the replacement itself, with A bound to a one-token node: what is not a variable stays literally
+    {
+      use ast_grep_core::meta_var::MetaVarEnv;
+      use ast_grep_core::replacer::Replacer;
+      use ast_grep_core::{Language, NodeMatch};
+      let sg = SupportLang::JavaScript.ast_grep("XY;");
+      let root = sg.root();
+      let found = root.dfs().find(|n| n.kind() == "identifier");
+      if let Some(x) = found {
+        let mut env = MetaVarEnv::new();
+        env.insert("A", x.clone());
+        let nm = NodeMatch::new(root.clone(), env);
+        let rep = std::panic::catch_unwind(std::panic::AssertUnwindSafe(|| fix.generate_replacement(&nm)));
+        out.checked();
+        match rep {
+          Err(_) => out.oracle_fail("", &format!("template {s:?}: generate_replacement panics"), json!({"stream": "template-subst", "template": s})),
+          Ok(bytes) => {
+            let got_text = String::from_utf8_lossy(&bytes).to_string();
+            let want_text = spec_template_subst(s, "XY");
+            let venv = vl![Val::L(vec![vl![Val::str_bytes("A"), vl![Val::n(0), Val::n(2)]]]), Val::L(vec![]), Val::L(vec![])];
+            out.case(7, &vl![Val::bytes(b"XY;"), Val::n(0), venv, Val::L(vec![]), Val::str_bytes(s)], &Val::bytes(&bytes), &format!("template substitution {s:?} with A = XY"));
+            // digit-first and `_`-first names are the known classes of this property: compared by the tie only
+            let known_shape = s.contains("$1") || s.contains("$_");
+            if got_text != want_text && !known_shape {
+              out.oracle_fail("", &format!("template {s:?} with $A = `XY` gives {got_text:?}; the documented scanner gives {want_text:?} (what is not a variable must stay literally)"),
+                json!({"stream": "template-subst", "template": s, "got": got_text, "want": want_text}));
+            }
+          }
+        }
+      }
+    }
     if got != want {
       out.oracle_fail(
         "",
